@@ -51,8 +51,8 @@ def fmtItem (now : Nat) (e : Ent) (ver : Nat) : String :=
   let fl := if f1 ++ f2 == "" then "." else f1 ++ f2
   s!"{toHex e.key}@{ver}:{e.umeta}:{e.exp}:{fl}:{toHex e.val}"
 
-def mvccStep (d : Db) (line : String) : Db × String :=
-  match words line with
+def mvccStepW (d : Db) (ws : List String) : Db × String :=
+  match ws with
   | "reset" :: rest =>
     let kv := kvArgs rest
     let o : Opts := {
@@ -223,5 +223,13 @@ def mvccStep (d : Db) (line : String) : Db × String :=
   | ["dump"] => (d, fmtDump d.lsm)
   | ["discardts"] => (d, toString d.discardAtOrBelow)
   | _ => (d, "bad-op")
+
+/-- `xiter` / `xget`: the same read issued while a memtable flush runs (the flush follows as its
+    own line); the model has no such interleaving — a flush changes no read — so they are `iter` / `get` -/
+def mvccStep (d : Db) (line : String) : Db × String :=
+  match words line with
+  | "xiter" :: rest => mvccStepW d ("iter" :: rest)
+  | "xget" :: rest => mvccStepW d ("get" :: rest)
+  | ws => mvccStepW d ws
 
 end Badger.Driver
